@@ -70,3 +70,21 @@ Lemma concat2_element axis a b i :
   if nth axis i 0 <? nthz (tshape a) axis then get 0%Z a i
   else get 0%Z b (map (fun k => if Nat.eqb k axis then nth k i 0 - nthz (tshape a) axis else nth k i 0) (seq 0 (List.length i))).
 Proof. intros Hv. unfold concat2 in *. exact (get_tabulate 0%Z _ _ i Hv). Qed.
+
+(* n inputs, read from the right: the joined value of acc, rest and a last input t is, at every
+   valid index, the last input's element where the axis coordinate reaches the SUM of all earlier
+   extents (at that coordinate minus the sum), and otherwise the element of the join of the
+   earlier inputs -- by recursion on the number of inputs this is the ONNX cumulative formula *)
+Lemma concat_nary_element axis (acc : tensor Z) rest t i :
+  axis < List.length (tshape acc) ->
+  let join := fold_left (fun acc t => concat2 axis acc (tz t)) in
+  valid (tshape (join (rest ++ [t]) acc)) i ->
+  get 0%Z (join (rest ++ [t]) acc) i =
+  let before := nthz (tshape acc) axis + sum_extents axis rest in
+  if nth axis i 0 <? before then get 0%Z (join rest acc) i
+  else get 0%Z (tz t) (map (fun k => if Nat.eqb k axis then nth k i 0 - before else nth k i 0) (seq 0 (List.length i))).
+Proof.
+  intros Ha join. unfold join. rewrite fold_left_app. cbn [fold_left]. intros Hv.
+  rewrite concat2_element by exact Hv.
+  destruct (concat_fold_shape axis rest acc Ha) as [_ [Hax _]]. cbn zeta in Hax. rewrite Hax. reflexivity.
+Qed.
